@@ -5,6 +5,7 @@ import (
 	"fmt"
 	goio "io"
 	"os"
+	"sort"
 
 	"github.com/evolbioinfo/goalign/align"
 	"github.com/evolbioinfo/goalign/io/fasta"
@@ -104,7 +105,7 @@ var mutationsCmd = &cobra.Command{
 					io.LogError(err)
 					return
 				}
-				for _, m := range muts.Mutations {
+				for _, m := range sortedMutations(muts) {
 					fmt.Fprintf(f, "%d\t%d\t%c\t%c\t%d\n", t.Id, m.AlignmentSite, m.ParentCharacter, m.ChildCharacter, m.NumEEM)
 				}
 			} else {
@@ -112,13 +113,35 @@ var mutationsCmd = &cobra.Command{
 					io.LogError(err)
 					return
 				}
-				for _, m := range muts.Mutations {
+				for _, m := range sortedMutations(muts) {
 					fmt.Fprintf(f, "%d\t%d\t%d\t%s\t%c\t%c\t%d\t%d\n", t.Id, m.AlignmentSite, m.BranchIndex, m.ChildNodeName, m.ParentCharacter, m.ChildCharacter, m.NumTips, m.NumTipsWithChildCharacter)
 				}
 			}
 		}
 		return
 	},
+}
+
+// sortedMutations returns the mutations of the list ordered by alignment site, parent and
+// child character and branch, so that the output does not depend on map iteration order
+func sortedMutations(muts *mutations.MutationList) []mutations.Mutation {
+	l := make([]mutations.Mutation, 0, len(muts.Mutations))
+	for _, m := range muts.Mutations {
+		l = append(l, m)
+	}
+	sort.Slice(l, func(i, j int) bool {
+		if l[i].AlignmentSite != l[j].AlignmentSite {
+			return l[i].AlignmentSite < l[j].AlignmentSite
+		}
+		if l[i].ParentCharacter != l[j].ParentCharacter {
+			return l[i].ParentCharacter < l[j].ParentCharacter
+		}
+		if l[i].ChildCharacter != l[j].ChildCharacter {
+			return l[i].ChildCharacter < l[j].ChildCharacter
+		}
+		return l[i].BranchIndex < l[j].BranchIndex
+	})
+	return l
 }
 
 func init() {
